@@ -68,9 +68,9 @@ const (
 var raceOpName = [ropN]string{"Get", "Set", "SetWithTTL", "Del", "GetTTL", "IterValues", "Wait",
 	"Clear", "UpdateMaxCost", "MaxCost", "RemainingCost", "Metrics"}
 
-// weights, summing to 2000; Clear is 10/2000 = 1 in 200.
+// weights, summing to 2000; Clear is 20/2000 = 1 in 100.
 var raceOpWeight = [ropN]int{ropGet: 560, ropSet: 520, ropSetTTL: 240, ropDel: 200, ropGetTTL: 100,
-	ropIter: 60, ropWait: 100, ropClear: 10, ropUpdMax: 50, ropMaxCost: 50, ropRemaining: 50, ropMetrics: 60}
+	ropIter: 60, ropWait: 90, ropClear: 20, ropUpdMax: 50, ropMaxCost: 50, ropRemaining: 50, ropMetrics: 60}
 
 var raceTTLs = []time.Duration{-time.Second, 0, time.Millisecond, 50 * time.Millisecond, time.Hour}
 
@@ -149,6 +149,11 @@ func raceGenCfg(r *Run, idx int) raceCfg {
 	}
 	if raceDurOverride > 0 {
 		c.dur = raceDurOverride
+	}
+	if idx%3 == 1 {
+		// every Get reaches the policy goroutine: its Push runs against Clear / Add / UpdateMaxCost
+		c.bufferItems = 1
+		c.numCounters = 1000
 	}
 	return c
 }
